@@ -177,9 +177,36 @@ struct SwRun<'s> {
     shared: bool,
 }
 
+/// payload of the panics the harness raises itself (silenced in the panic hook)
+struct HarnessUnwind;
+
+/// Leave the scope that owns `guard` by a panic and catch it: the guard's Drop runs during unwinding.
+fn unwind_through<G>(guard: G) {
+    let r = std::panic::catch_unwind(std::panic::AssertUnwindSafe(move || {
+        let _in_scope = guard;
+        std::panic::panic_any(HarnessUnwind);
+    }));
+    match r {
+        Err(p) if p.is::<HarnessUnwind>() => {}
+        Err(p) => std::panic::resume_unwind(p), // a panic of the code under test (e.g. in Drop): data
+        Ok(()) => unreachable!(),
+    }
+}
+
+fn silence_harness_panics() {
+    let default = std::panic::take_hook();
+    std::panic::set_hook(Box::new(move |info| {
+        if !info.payload().is::<HarnessUnwind>() {
+            default(info)
+        }
+    }));
+}
+
 enum GuardOp {
     Stop,
     Drop,
+    /// the guard is dropped by a (caught) panic unwinding through its scope
+    DropUnwind,
     Overwrite,
     Discard,
 }
@@ -188,6 +215,7 @@ fn guard_op(op: &str) -> Option<GuardOp> {
     Some(match op {
         "Stop" => GuardOp::Stop,
         "Drop" => GuardOp::Drop,
+        "DropUnwind" => GuardOp::DropUnwind,
         "Overwrite" => GuardOp::Overwrite,
         "Discard" => GuardOp::Discard,
         _ => return None,
@@ -240,6 +268,10 @@ impl SwRun<'_> {
                 self.check_ret(i, Some(r));
             }
             GuardOp::Drop => self.env.under(move || drop(g)),
+            GuardOp::DropUnwind => {
+                st.hit("owned_guard_dropped_by_unwinding");
+                self.env.under(move || unwind_through(g))
+            }
             GuardOp::Overwrite => {
                 if self.last_obs >= 0 {
                     st.hit("overwrite_over_kept");
@@ -277,6 +309,10 @@ impl SwRun<'_> {
                             self.check_ret(i, Some(r));
                         }
                         GuardOp::Drop => self.env.under(move || drop(gg)),
+                        GuardOp::DropUnwind => {
+                            st.hit("borrowed_guard_dropped_by_unwinding");
+                            self.env.under(move || unwind_through(gg))
+                        }
                         GuardOp::Overwrite => {
                             st.hit("borrowed_overwrite");
                             self.env.under(move || gg.overwrite())
@@ -667,6 +703,7 @@ enum Fin {
     Drop,
     Stop,
     Discard,
+    Unwind,
 }
 
 /// One round: the creating thread starts groups of owned guards (group = guards for one thread
@@ -699,6 +736,7 @@ fn conc_round(round: u64, seed: u64, threads: usize, guards: usize, tick_ns: u64
                     let fin = match r.random_range(0..10) {
                         0 => Fin::Discard,
                         1 | 2 => Fin::Stop,
+                        3 => Fin::Unwind,
                         _ => Fin::Drop,
                     };
                     mine.push((gid, sw.start_owned(), fin));
@@ -716,7 +754,7 @@ fn conc_round(round: u64, seed: u64, threads: usize, guards: usize, tick_ns: u64
         // complete all guards at the same moment on `threads` threads; nothing is logged while they
         // run (the log's mutex would pace them)
         let barrier = std::sync::Barrier::new(threads);
-        let results: Vec<Result<Vec<(u64, u64, u64)>, String>> = std::thread::scope(|s| {
+        let results: Vec<Result<Vec<(u64, u64, u64, u64)>, String>> = std::thread::scope(|s| {
             let hs: Vec<_> = per_thread
                 .into_iter()
                 .map(|mine| {
@@ -724,10 +762,10 @@ fn conc_round(round: u64, seed: u64, threads: usize, guards: usize, tick_ns: u64
                     s.spawn(move || {
                         barrier.wait();
                         util::catch(move || {
-                            let mut per_group: Vec<(u64, u64, u64)> = Vec::new(); // (group, kept, discarded)
+                            let mut per_group: Vec<(u64, u64, u64, u64)> = Vec::new(); // (group, kept, discarded, unwound)
                             for (g, guard, fin) in mine {
                                 if per_group.last().map(|x| x.0) != Some(g) {
-                                    per_group.push((g, 0, 0));
+                                    per_group.push((g, 0, 0, 0));
                                 }
                                 let e = per_group.last_mut().unwrap();
                                 match fin {
@@ -743,6 +781,10 @@ fn conc_round(round: u64, seed: u64, threads: usize, guards: usize, tick_ns: u64
                                         guard.discard();
                                         e.2 += 1
                                     }
+                                    Fin::Unwind => {
+                                        unwind_through(guard);
+                                        e.3 += 1
+                                    }
                                 }
                             }
                             per_group
@@ -755,9 +797,9 @@ fn conc_round(round: u64, seed: u64, threads: usize, guards: usize, tick_ns: u64
         for (t, res) in results.into_iter().enumerate() {
             match res {
                 Ok(per_group) => {
-                    for (g, kept, discarded) in per_group {
-                        completed += kept + discarded;
-                        trace::ev(json!({"ev": "Done", "g": g, "t": t, "kept": kept, "discarded": discarded}));
+                    for (g, kept, discarded, unwound) in per_group {
+                        completed += kept + discarded + unwound;
+                        trace::ev(json!({"ev": "Done", "g": g, "t": t, "kept": kept, "unwound": unwound, "discarded": discarded}));
                     }
                 }
                 // a panic while completing a guard is data: the groups stay open and Close is rejected
@@ -812,6 +854,7 @@ fn cmd_conc(a: &HashMap<String, String>) {
 
 fn main() {
     let (cmd, a) = util::args();
+    silence_harness_panics();
     if cmd == "conc" {
         return cmd_conc(&a);
     }
